@@ -10,7 +10,7 @@ import (
 // C10 — the file store is durable: a restart shows exactly the mail that was there.
 
 var c10Ops = func() []sop {
-	o := append([]sop{}, c07Ops...)
+	o := append([]sop{}, c07Base...)
 	o = append(o, sop{Kind: "reopen"}, sop{Kind: "scan"}, sop{Kind: "addfail", MB: 0})
 	return o
 }()
